@@ -102,6 +102,7 @@ func c07MemScenario(c *choice.Ctx, rep *report.R, variant int) {
 		add("get(k2)", func() { get("k2") })
 	}
 	finalWant := ""
+	mustHit := false
 	switch variant {
 	case 4: // C08: a negative answer (SetIfAbsent) racing with a positive one for a key that is not cached yet
 		add("storeNX(k5 negative)", func() { store("k5", 1, true) })
@@ -113,6 +114,11 @@ func c07MemScenario(c *choice.Ctx, rep *report.R, variant int) {
 		add("get(k1)", func() { get("k1") })
 		add("store(k2)", func() { store("k2", 2, false) })
 		finalWant = "k1#1#"
+	case 6: // C07 (hit guarantee): two lookups of the same live entry overlap; nothing evicts or replaces it
+		add("get(k1)", func() { get("k1") })
+		add("get(k1)'", func() { get("k1") })
+		add("store(k2)", func() { store("k2", 2, false) })
+		mustHit = true
 	}
 	s := sched.Run(c, names, bodies)
 	if finalWant != "" {
@@ -135,6 +141,13 @@ func c07MemScenario(c *choice.Ctx, rep *report.R, variant int) {
 	for _, p := range s.Panics() {
 		bad("panic", p, s)
 	}
+	if mustHit && c07MemProp() == "C07" {
+		for _, r := range results {
+			if strings.HasSuffix(r, "=miss") {
+				bad("live-entry-missed", "a lookup of a live entry that nobody evicts or replaces missed because another lookup of the same entry was in progress: "+r, s)
+			}
+		}
+	}
 	for _, r := range results {
 		if strings.Contains(r, "POISON") {
 			bad("lookup-returned-released-memory", "Get returned bytes of a released buffer: "+r, s)
@@ -156,11 +169,11 @@ func TestVerifC07Mem(t *testing.T) {
 	rep := report.New("C07/C20 memory cache under the controlled scheduler")
 	defer rep.Write()
 	bound := report.ParamInt("PREEMPTIONS", 2)
-	rep.Rule = fmt.Sprintf("E2: real internal/cache/mem.go with sync->vsync (LIFO always-reusing Pool, scheduled Mutex/RWMutex incl. TryRLock) and otter->votter (linearizable map whose removal and deletion-listener call are separate steps); 6 thread programs "+
-		"{get(k1) | store(k2);get(k2) | evict(k1)}, {get(k1) | store(k1') | storeNX(k3)}, {get(k1);get(k2) | evict(k1);store(k3) | evict(k2);storeNX(k4)}, {get(k1) | storeNX(k1) | evict(k1);store(k1'') | get(k2)}, {storeNX(k5 negative) | store(k5 positive) | get(k1)}, {storeNX(k1 negative) | get(k1) | store(k2)}; all interleavings at lock/pool/backend operations with <=%d preemptions; "+
+	rep.Rule = fmt.Sprintf("E2: real internal/cache/mem.go with sync->vsync (LIFO always-reusing Pool, scheduled Mutex/RWMutex incl. TryRLock) and otter->votter (linearizable map whose removal and deletion-listener call are separate steps); 7 thread programs "+
+		"{get(k1) | store(k2);get(k2) | evict(k1)}, {get(k1) | store(k1') | storeNX(k3)}, {get(k1);get(k2) | evict(k1);store(k3) | evict(k2);storeNX(k4)}, {get(k1) | storeNX(k1) | evict(k1);store(k1'') | get(k2)}, {storeNX(k5 negative) | store(k5 positive) | get(k1)}, {storeNX(k1 negative) | get(k1) | store(k2)}, {get(k1) | get(k1) | store(k2)} (C07: both lookups hit); all interleavings at lock/pool/backend operations with <=%d preemptions; "+
 		"oracle: Get(k) returns nil or a value ever stored under k, never poison; no double/foreign release, no write after release (ownership hook), no deadlock, no panic; after programs 5 and 6 the cache holds the positive value (a set-if-absent store never displaces it); states = distinct result vectors", bound)
 	sh, n := report.Shard()
-	for variant := 0; variant < 6; variant++ {
+	for variant := 0; variant < 7; variant++ {
 		variant := variant
 		if rp := report.ReplayFile(); rp != nil {
 			var x struct {
